@@ -57,9 +57,33 @@ SEQUENTIAL = {
 }
 
 # --- concurrent part: filled in by the scheduler work (same dict format) -------------------
+WRAPF = '-Wl,--wrap=pthread_create,--wrap=pthread_join,--wrap=pthread_mutex_lock,--wrap=pthread_mutex_trylock,--wrap=pthread_mutex_unlock'
+def TC(name, *args):
+    return dict(name=name, harness='h_typeconc.c', variant='hooks', args=list(args), cflags=WRAPF)
+
+# controlled scheduler (lib/vf_sched.h): first lookups on a cold type from 2-3 threads, scheduling points at the four Type.c hook
+# sites (cache-slot read, cache-slot write, class memo write, lazy header type); every interleaving within the preemption bound
+def pairs(prefix, bound, groups=('chl', 'sgi', 'pPm', 'xto')):
+    return [TC('%s-%s' % (prefix, g), 'mode=all', 'depth=1', 'bound=%d' % bound, 'first=' + g) for g in groups]
+
 CONCURRENT = {
-  'quick': [],
-  'thorough': [],
+  'quick': pairs('conc-pairs-b2', 2) + [
+    TC('conc-2x2-b2-c', 'mode=all', 'depth=2', 'alpha=chg', 'bound=2', 'first=c'),   # every pair of two-lookup plans over 3 ops
+    TC('conc-2x2-b2-h', 'mode=all', 'depth=2', 'alpha=chg', 'bound=2', 'first=h'),
+    TC('conc-2x2-b2-g', 'mode=all', 'depth=2', 'alpha=chg', 'bound=2', 'first=g'),
+    TC('conc-3threads', 'ops=ch/cl/hi', 'bound=2'),
+  ],
+  'thorough': pairs('conc-pairs-b4', 4, ('c', 'h', 'l', 's', 'g', 'i', 'p', 'P', 'm', 'x', 't', 'o')) + [
+    TC('conc-2x2-b3-c', 'mode=all', 'depth=2', 'alpha=chlgimx', 'bound=3', 'first=c'),
+    TC('conc-2x2-b3-h', 'mode=all', 'depth=2', 'alpha=chlgimx', 'bound=3', 'first=h'),
+    TC('conc-2x2-b3-l', 'mode=all', 'depth=2', 'alpha=chlgimx', 'bound=3', 'first=l'),
+    TC('conc-2x2-b3-g', 'mode=all', 'depth=2', 'alpha=chlgimx', 'bound=3', 'first=g'),
+    TC('conc-2x2-b3-i', 'mode=all', 'depth=2', 'alpha=chlgimx', 'bound=3', 'first=i'),
+    TC('conc-2x2-b3-m', 'mode=all', 'depth=2', 'alpha=chlgimx', 'bound=3', 'first=m'),
+    TC('conc-2x2-b3-x', 'mode=all', 'depth=2', 'alpha=chlgimx', 'bound=3', 'first=x'),
+    TC('conc-3threads-a', 'ops=ch/cl/hi', 'bound=3'),
+    TC('conc-3threads-b', 'ops=cm/gx/ot', 'bound=3'),
+  ],
 }
 
 CHECK = {
